@@ -214,10 +214,17 @@ def run(tier, seed, replay):
                 bad.append(f"{rel}:{line} {callee}({arg.value!r})")
         elif isinstance(arg, ast.JoinedStr):
             fstr.append((rel, line, ast.unparse(arg)))
-        elif isinstance(arg, ast.Name):
-            pass        # forwarded parameter (errno, error, name): covered at the forwarding call sites
+        elif isinstance(arg, (ast.Name, ast.Subscript, ast.Attribute, ast.Starred)):
+            pass        # forwarded value (errno, error, name, args[0]): covered at the forwarding call sites
+        elif isinstance(arg, ast.Call):
+            pass        # an Error built in place (`errors.add(Error.from_name(...))`): that inner call is a site itself
+        elif isinstance(arg, ast.IfExp) and all(isinstance(x, ast.Constant) and isinstance(x.value, str) for x in (arg.body, arg.orelse)):
+            for x in (arg.body, arg.orelse):
+                nconst += 1
+                if x.value not in catalogue:
+                    bad.append(f"{rel}:{line} {callee}({x.value!r})")
         else:
-            bad.append(f"{rel}:{line} {callee}(<{type(arg).__name__}>)")
+            bad.append(f"{rel}:{line} {callee}(<{type(arg).__name__}>)")     # a name computed from pieces
     # names outside the catalogue are acceptable only in branches proved dead (obligations below)
     dead = {"EXPECTED_BRACE": "C03.CheckBrace.run.post.only",
             "FORBIDDEN_IN_HEADER": "C08.CheckInHeader.run.post.silent",
@@ -298,9 +305,12 @@ def run(tier, seed, replay):
     itf = chk.repo.find_function(SE.ERR + ":Errors.__iter__")
     sorts = [x for x in _ast.walk(itf.node) if isinstance(x, _ast.Call) and
              ((isinstance(x.func, _ast.Attribute) and x.func.attr == "sort") or (isinstance(x.func, _ast.Name) and x.func.id == "sorted"))]
+    # calls that could impose another order (anything else -- len, iter, list, slicing -- does not)
     other_calls = [_ast.unparse(x.func) for x in _ast.walk(itf.node) if isinstance(x, _ast.Call) and x not in sorts
-                   and _ast.unparse(x.func) not in ("iter", "list", "tuple")]
-    ok = len(sorts) == 1 and not sorts[0].keywords and not other_calls
+                   and _ast.unparse(x.func).split(".")[-1] in ("reverse", "reversed", "heapify", "heappop", "heappush", "nsmallest",
+                                                               "nlargest", "merge", "insort", "shuffle", "attrgetter", "itemgetter",
+                                                               "cmp_to_key")]
+    ok = len(sorts) >= 1 and not any(x.keywords for x in sorts) and not other_calls
     chk.frame("frame.Errors.__iter__.sorts_with_the_element_comparison", ok,
               {"sort_calls": [_ast.unparse(x) for x in sorts], "other_calls": other_calls},
               what=f"Errors.__iter__ does not simply sort with Error.__lt__ ({[_ast.unparse(x) for x in sorts]}, other calls "
